@@ -64,8 +64,15 @@ func main() {
 	})
 }
 
+// chainIDs: the harness's own chain id and the production chain ids for which the application
+// carries fork overrides (app/forks.go); the one with an override at eon 0 twice
+var chainIDs = []string{"verif-chain-1", "shutter-api-gnosis-1002", "shutter-gnosis-1000", "shutter-api-gnosis-1002", "shutter-chiado-102000", "shutter-api-gnosis-1001", "shutter-service-chiado-1000"}
+
 func replayCase(env *vlib.Env, h int, rep *vlib.Reporter) {
 	app.PersistMinDuration = 0
+	defer func(old string) { smchain.ChainID = old }(smchain.ChainID)
+	smchain.ChainID = chainIDs[h%len(chainIDs)]
+	rep.Obs("histories_on_chain_"+smchain.ChainID, 1)
 	hist := smchain.GenHistory(env.Seed, 13, h, env.Scale(40, 90), 5, nil)
 	dir, err := os.MkdirTemp(env.Scratch, "c13r")
 	if err != nil {
@@ -403,6 +410,34 @@ func killCase(env *vlib.Env, k int, rep *vlib.Reporter) {
 			}
 			rep.Obs("kill_points", 1)
 			rep.Eval(fmt.Sprintf("kill/%d/%s/%d", h, name, kth), true)
+			os.RemoveAll(dir)
+		}
+	}
+	// kill sweep over the very first save (no state file exists yet): the node must be able to start
+	// afterwards, from nothing or from the complete first state
+	for _, name := range []string{"openat", "write", "fsync", "renameat"} {
+		for kth := 1; kth <= total[name]-count[name]; kth++ {
+			dir := filepath.Join(base, fmt.Sprintf("first-%s%d", name, kth))
+			_ = os.MkdirAll(dir, 0o755)
+			desc := fmt.Sprintf("history %d s1=%d s2=%d kill at %s #%d (first save)", h, s1, s2, name, kth)
+			rep.Pre("save:kill", desc)
+			_ = runChild(dir, env, h, s1, s2, fmt.Sprintf("%s:signal=SIGKILL:when=%d", name, kth), "/dev/null")
+			if _, err := os.Stat(filepath.Join(dir, "done")); err == nil {
+				rep.Inconclusive("kill injection did not fire: " + desc)
+				return
+			}
+			la, err := app.LoadShutterAppFromFile(filepath.Join(dir, "state.gob"))
+			if err != nil {
+				rep.Violationf("save:crash-unloadable", map[string]any{"kill": desc}, "after a crash at %s #%d of the first save the node cannot load its state: %v", name, kth, err)
+				return
+			}
+			if _, err := os.Stat(filepath.Join(dir, "state.gob")); err == nil {
+				if got := smchain.Canon(&la); got != string(canon1) {
+					rep.Violationf("save:crash-wrong-state", map[string]any{"kill": desc}, "after a crash at %s #%d of the first save a state file exists that does not hold the first state", name, kth)
+					return
+				}
+			}
+			rep.Obs("kill_points_in_the_first_save", 1)
 			os.RemoveAll(dir)
 		}
 	}
